@@ -1,9 +1,266 @@
-import Fpdec.Lemmas.Dom
+import Fpdec.Lemmas.Scale
+import Fpdec.Lemmas.IntTy
+import Fpdec.Props.C02
 import Fpdec.Props.C04_Sites
 
-/-! # C04 — property theorems (under construction: see DESIGN.md section 6) -/
+/-!
+# C04 — mul_rounded, div_rounded and quantize round the exact result once, per mode
+
+* `checkedDivRounded_spec`: the shared kernel `checked_div_rounded(a, p, b, q, n)` returns the exact quotient
+  `a·10^(n+q) / (b·10^p)` rounded ONCE under the thread mode — in all four scaling branches: equal scales, dividend scaled
+  (narrow), dividend scaled through the 256-bit path, and divisor scaled (the repaired branch, `specRound_two_step`).
+* `div_rounded_spec` and the integer-operand shapes; `n > 18` is rejected for the three guarded shapes; the
+  unguarded integer/integer shape is the open finding D8 (`div_rounded_int_int_partial`, witness below).
+* `mul_rounded_spec`, `quantize_spec`.
+The wide paths are relative to `C02.WideMul` / `WideDiv` (specifications of the 256-bit helpers, discharged in `Props/C16.lean`).
+-/
 
 namespace Fpdec.Props.C04
 open Fpdec Fpdec.Model
+
+/-- specification of `i128_shifted_div_mod_floor` for a positive divisor (proved in `Lemmas/Wide.lean`, C16) -/
+def WideDiv : Prop :=
+  ∀ (prof : Profile) (x : Int) (p : Nat) (y : Int), (I128_MIN < x ∧ x ≤ I128_MAX) → p ≤ 38 → (0 < y ∧ y ≤ I128_MAX) →
+    i128ShiftedDivModFloor prof x p y =
+      .ok (if ((x * 10 ^ p).natAbs / y.natAbs : Nat) ≤ I128_MAX.toNat then some ((x * 10 ^ p) / y, (x * 10 ^ p) % y) else none)
+
+/-- a coefficient result seen as a decimal with `n` fractional digits -/
+def outOptInt (n : Nat) (r : Outcome (Option Int)) : Outcome (Option (Int × Nat)) :=
+  match r with
+  | .ok (some c) => .ok (some (c, n))
+  | .ok none => .ok none
+  | .panic k => .panic k
+
+def specDivCore (tm : Mode) (a : Int) (p : Nat) (b : Int) (q n : Nat) : Spec.Exp :=
+  Spec.valFit (Spec.specRoundQ tm (a * (10 : Int) ^ (n + q)) (b * (10 : Int) ^ p)) n
+
+theorem specRoundQ_pos (m : Mode) (n d : Int) (hd : 0 < d) : Spec.specRoundQ m n d = Spec.specRound m n d := by
+  unfold Spec.specRoundQ
+  have : ¬ d < 0 := by omega
+  simp [this]
+
+theorem specRoundQ_neg (m : Mode) (n d : Int) (hd : d < 0) : Spec.specRoundQ m n d = Spec.specRound m (-n) (-d) := by
+  unfold Spec.specRoundQ
+  simp [hd]
+
+/-- sign-normalised operands: `(a', b')` with `b' > 0` and the same quotient -/
+theorem specRoundQ_norm (m : Mode) (n d : Int) (hd : d ≠ 0) :
+    Spec.specRoundQ m n d = Spec.specRound m (if d < 0 then -n else n) (if d < 0 then -d else d) := by
+  by_cases h : d < 0
+  · simp only [h, if_true]; exact specRoundQ_neg m n d h
+  · simp only [h, if_false]; exact specRoundQ_pos m n d (by omega)
+
+theorem pow_split (k j : Nat) (h : j ≤ k) : (10 : Int) ^ k = (10 : Int) ^ (k - j) * (10 : Int) ^ j := by
+  rw [← Int.pow_add]; congr 1; omega
+
+/-- the continuation of the divisor-scaled branch after the sign-normalised floor division -/
+theorem gt_tail (prof : Profile) (tm : Mode) (a' b' : Int) (n s : Nat)
+    (ha' : I128_MIN < a' ∧ a' ≤ I128_MAX) (hb' : 0 < b' ∧ b' ≤ I128_MAX) (hs : 1 ≤ s ∧ s ≤ 18) :
+    Spec.allowedChecked (Spec.valFit (Spec.specRound tm a' (b' * (10 : Int) ^ s)) n)
+      (outOptInt n (do
+        let t ← tenPow s
+        if (a' / b', a' % b').2 = 0 then do
+          let c ← i128DivRounded prof tm (a' / b', a' % b').1 t none
+          pure (some c)
+        else do
+          let q2 ← plainI128 prof (2 * (a' / b', a' % b').1)
+          let q2 ← plainI128 prof (q2 + 1)
+          let t2 ← plainI128 prof (2 * t)
+          let c ← i128DivRounded prof tm q2 t2 none
+          pure (some c))) = true := by
+  have hts := pow10_pos s
+  rw [tenPow_ok _ (by omega)]
+  simp only [Outcome.bind_ok]
+  have hq1 := Int.emod_nonneg a' (Int.ne_of_gt hb'.1)
+  have hq2 := Int.emod_lt_of_pos a' hb'.1
+  have hq3 := Int.mul_ediv_add_emod a' b'
+  -- |a'/b'| ≤ |a'|
+  have hqf : I128_MIN < a' / b' ∧ a' / b' ≤ I128_MAX := by
+    unfold I128_MIN I128_MAX at *
+    constructor
+    · by_cases hxn : 0 ≤ a'
+      · have := Int.ediv_nonneg hxn (Int.le_of_lt hb'.1); omega
+      · have := ediv_ge_of_neg (x := a') (by omega) hb'.1; omega
+    · by_cases hxn : 0 ≤ a'
+      · have := Int.ediv_le_self b' hxn; omega
+      · have := Int.ediv_neg_of_neg_of_pos (show a' < 0 by omega) hb'.1; omega
+  have hpl : (10 : Int) ^ s ≤ I128_MAX := C02.pow10_le_max' (by omega)
+  by_cases hrem : a' % b' = 0
+  · simp only [hrem, if_true]
+    rw [i128DivRounded_pos prof tm none _ _ (by rw [fitsI128_iff]; omega) hts hpl]
+    simp only [Outcome.bind_ok, Option.getD_none, outOptInt]
+    have hab : a' = a' / b' * b' := by rw [hrem] at hq3; rw [Int.mul_comm]; omega
+    have := specRound_exact_step tm (a' / b') b' ((10 : Int) ^ s) hb'.1 hts
+    rw [← hab] at this
+    rw [← this]
+    exact valFit_some _ _ (specRound_fits tm _ _ ⟨by omega, hqf.2⟩ hts)
+  · simp only [hrem, if_false]
+    -- rem ≠ 0 ⇒ b' ≥ 2 ⇒ |quot| ≤ 2^126: the doubled operands fit
+    have hb2 : 2 ≤ b' := by omega
+    have hq126 : -85070591730234615865843651857942052864 ≤ a' / b' ∧ a' / b' ≤ 85070591730234615865843651857942052863 := by
+      unfold I128_MIN I128_MAX at *
+      constructor
+      · by_cases hxn : 0 ≤ a'
+        · have := Int.ediv_nonneg hxn (Int.le_of_lt hb'.1); omega
+        · have hneg := Int.ediv_neg_of_neg_of_pos (show a' < 0 by omega) hb'.1
+          have h5 : b' * (a' / b' + 1) ≤ 2 * (a' / b' + 1) := Int.mul_le_mul_of_nonpos_right hb2 (by omega)
+          have e5 : b' * (a' / b' + 1) = b' * (a' / b') + b' := by rw [Int.mul_add, Int.mul_one]
+          omega
+      · by_cases hxn : 0 ≤ a'
+        · have h0 := Int.ediv_nonneg hxn (Int.le_of_lt hb'.1)
+          have : 2 * (a' / b') ≤ b' * (a' / b') := Int.mul_le_mul_of_nonneg_right hb2 h0
+          omega
+        · have := Int.ediv_neg_of_neg_of_pos (show a' < 0 by omega) hb'.1; omega
+    have ht18 : (10 : Int) ^ s ≤ (10 : Int) ^ 18 := pow10_mono (by omega)
+    have h1018 : (10 : Int) ^ 18 = 1000000000000000000 := by decide
+    have f1 : fitsI128 (2 * (a' / b')) = true := by rw [fitsI128_iff]; unfold I128_MIN I128_MAX; omega
+    have f2 : fitsI128 (2 * (a' / b') + 1) = true := by rw [fitsI128_iff]; unfold I128_MIN I128_MAX; omega
+    have f3 : fitsI128 (2 * (10 : Int) ^ s) = true := by rw [fitsI128_iff]; unfold I128_MIN I128_MAX; omega
+    simp only [plainI128_ok prof f1, plainI128_ok prof f2, plainI128_ok prof f3, Outcome.bind_ok]
+    rw [i128DivRounded_pos prof tm none _ _ f2 (by omega) (by unfold I128_MAX; omega)]
+    simp only [Outcome.bind_ok, Option.getD_none, outOptInt]
+    have heven : (10 : Int) ^ s % 2 = 0 := by
+      have : (10 : Int) ^ s = 10 * (10 : Int) ^ (s - 1) := by
+        rw [← Int.pow_succ']; congr 1; omega
+      rw [this]; omega
+    rw [specRound_two_step tm a' b' _ hb'.1 hts heven hrem]
+    apply valFit_some
+    rw [← specRound_two_step tm a' b' _ hb'.1 hts heven hrem]
+    exact specRound_fits tm _ _ ((fitsI128_iff _).mp f2) (by omega)
+
+
+theorem checkedDivRounded_spec (hw : WideDiv) (prof : Profile) (tm : Mode) (a : Int) (p : Nat) (b : Int) (q n : Nat)
+    (ha : I128_MIN < a ∧ a ≤ I128_MAX) (hb : I128_MIN < b ∧ b ≤ I128_MAX) (hb0 : b ≠ 0)
+    (hp : p ≤ 18) (hq : q ≤ 18) (hn : n ≤ 18) :
+    Spec.allowedChecked (specDivCore tm a p b q n) (outOptInt n (checkedDivRounded prof tm a p b q n)) = true := by
+  unfold checkedDivRounded specDivCore
+  rw [plainU8_ok prof (x := (n : Int) + (q : Int)) (by omega) (by omega)]
+  have hnq : ((n : Int) + (q : Int)).toNat = n + q := by omega
+  simp only [Outcome.bind_ok, hnq]
+  have hpp := pow10_pos p
+  rcases Nat.lt_trichotomy p (n + q) with hlt | heq | hgt
+  · -- dividend must be scaled
+    have hc : compare p (n + q) = .lt := Nat.compare_eq_lt.mpr hlt
+    simp only [hc]
+    have hs38 : n + q - p ≤ 38 := by omega
+    -- spec: cancel 10^p
+    have hspec : Spec.specRoundQ tm (a * (10 : Int) ^ (n + q)) (b * (10 : Int) ^ p) =
+        Spec.specRoundQ tm (a * (10 : Int) ^ (n + q - p)) b := by
+      rw [pow_split (n + q) p (by omega), ← Int.mul_assoc]
+      exact specRoundQ_scale tm _ b _ hb0 hpp
+    rw [hspec, checkedMulPowTen_eq a (n + q - p) hs38]
+    cases hh : fitsI128 (a * (10 : Int) ^ (n + q - p))
+    · -- wide path
+      rw [checkedI128_none hh]
+      simp only []
+      unfold i128ShiftedDivRounded
+      rw [specRoundQ_norm tm _ b hb0]
+      by_cases hneg : b < 0
+      · have f1 : fitsI128 (-a) = true := by rw [fitsI128_iff]; unfold I128_MIN I128_MAX at *; omega
+        have f2 : fitsI128 (-b) = true := by rw [fitsI128_iff]; unfold I128_MIN I128_MAX at *; omega
+        simp only [hneg, if_true, negI128, plainI128_ok prof f1, plainI128_ok prof f2, Outcome.bind_ok, Outcome.pure_eq]
+        rw [hw prof (-a) (n + q - p) (-b) (by unfold I128_MIN I128_MAX at *; omega) hs38 (by unfold I128_MAX I128_MIN at *; omega)]
+        simp only [Outcome.bind_ok]
+        have e : -(a * (10 : Int) ^ (n + q - p)) = -a * (10 : Int) ^ (n + q - p) := by rw [Int.neg_mul]
+        rw [e]
+        have key := wide_tail tm (-a * (10 : Int) ^ (n + q - p)) (-b) n (by omega) (by unfold I128_MAX I128_MIN at *; omega)
+        by_cases ht : ((-a * (10 : Int) ^ (n + q - p)).natAbs / (-b).natAbs : Nat) ≤ I128_MAX.toNat
+        · simp only [ht, if_true, Option.bind_some] at key ⊢
+          cases hr : roundQuot tm (-a * 10 ^ (n + q - p) / -b) (IntTy.u128.cast (-a * 10 ^ (n + q - p) % -b)).toNat
+              (IntTy.u128.cast (-b)).toNat none with
+          | none => rw [hr] at key; simpa [outOptInt] using key
+          | some c => rw [hr] at key; simpa [outOptInt] using key
+        · simp only [ht, if_false, Option.bind_none] at key ⊢
+          simpa [outOptInt] using key
+      · simp only [hneg, if_false, Outcome.bind_ok, Outcome.pure_eq]
+        rw [hw prof a (n + q - p) b ha hs38 (by omega)]
+        simp only [Outcome.bind_ok]
+        have key := wide_tail tm (a * (10 : Int) ^ (n + q - p)) b n (by omega) hb.2
+        by_cases ht : ((a * (10 : Int) ^ (n + q - p)).natAbs / b.natAbs : Nat) ≤ I128_MAX.toNat
+        · simp only [ht, if_true, Option.bind_some] at key ⊢
+          cases hr : roundQuot tm (a * 10 ^ (n + q - p) / b) (IntTy.u128.cast (a * 10 ^ (n + q - p) % b)).toNat
+              (IntTy.u128.cast b).toNat none with
+          | none => rw [hr] at key; simpa [outOptInt] using key
+          | some c => rw [hr] at key; simpa [outOptInt] using key
+        · simp only [ht, if_false, Option.bind_none] at key ⊢
+          simpa [outOptInt] using key
+    · -- narrow path: the scaled dividend fits
+      rw [checkedI128_some hh]
+      simp only []
+      by_cases hmin : a * (10 : Int) ^ (n + q - p) = I128_MIN
+      · -- dividend exactly i128::MIN: only reachable with a positive divisor … or it would overflow on negation
+        by_cases hneg : b < 0
+        · -- `-divident` overflows: panic in dev, wrap in release — excluded: cannot happen, the product is a multiple of 10
+          exfalso
+          have hk : 1 ≤ n + q - p := by omega
+          have : (10 : Int) ^ (n + q - p) = 10 * (10 : Int) ^ (n + q - p - 1) := by
+            rw [← Int.pow_succ']; congr 1; omega
+          rw [this] at hmin
+          have e : a * (10 * (10 : Int) ^ (n + q - p - 1)) = 10 * (a * (10 : Int) ^ (n + q - p - 1)) := by ring
+          rw [e] at hmin
+          unfold I128_MIN at hmin
+          omega
+        · rw [i128DivRounded_pos prof tm none _ b hh (by omega) hb.2]
+          simp only [Outcome.bind_ok, Option.getD_none, outOptInt]
+          rw [specRoundQ_pos tm _ b (by omega)]
+          exact valFit_some _ _ (specRound_fits tm _ b ((fitsI128_iff _).mp hh) (by omega))
+      · have hrange : I128_MIN < a * (10 : Int) ^ (n + q - p) ∧ a * (10 : Int) ^ (n + q - p) ≤ I128_MAX := by
+          have := (fitsI128_iff _).mp hh; omega
+        rw [i128DivRounded_spec prof tm none _ b hrange hb hb0]
+        simp only [Outcome.bind_ok, Option.getD_none, outOptInt]
+        rw [specRoundQ_norm tm _ b hb0]
+        apply valFit_some
+        apply specRound_fits
+        · unfold I128_MIN I128_MAX at *; split <;> omega
+        · split <;> omega
+  · -- equal scales
+    have hc : compare p (n + q) = .eq := by rw [heq]; simp
+    simp only [hc]
+    rw [i128DivRounded_spec prof tm none a b ha hb hb0]
+    simp only [Outcome.bind_ok, Option.getD_none, outOptInt]
+    have hspec : Spec.specRoundQ tm (a * (10 : Int) ^ (n + q)) (b * (10 : Int) ^ p) = Spec.specRoundQ tm a b := by
+      rw [← heq]; exact specRoundQ_scale tm a b _ hb0 hpp
+    rw [hspec, specRoundQ_norm tm a b hb0]
+    apply valFit_some
+    apply specRound_fits
+    · unfold I128_MIN I128_MAX at *; split <;> omega
+    · split <;> omega
+  · -- divisor must be scaled: floor-divide first, then round once (repaired branch)
+    have hc : compare p (n + q) = .gt := Nat.compare_eq_gt.mpr hgt
+    simp only [hc]
+    have hs : 1 ≤ p - (n + q) ∧ p - (n + q) ≤ 18 := by omega
+    have hts := pow10_pos (p - (n + q))
+    -- spec: cancel 10^(n+q)
+    have hspec : Spec.specRoundQ tm (a * (10 : Int) ^ (n + q)) (b * (10 : Int) ^ p) =
+        Spec.specRoundQ tm a (b * (10 : Int) ^ (p - (n + q))) := by
+      rw [pow_split p (n + q) (by omega), ← Int.mul_assoc]
+      exact specRoundQ_scale tm a _ _ (by
+        intro h; rcases Int.mul_eq_zero.mp h with h | h
+        · exact hb0 h
+        · omega) (pow10_pos _)
+    rw [hspec]
+    by_cases hneg : b < 0
+    · have f1 : fitsI128 (-a) = true := by rw [fitsI128_iff]; unfold I128_MIN I128_MAX at *; omega
+      have f2 : fitsI128 (-b) = true := by rw [fitsI128_iff]; unfold I128_MIN I128_MAX at *; omega
+      simp only [hneg, if_true, negI128, plainI128_ok prof f1, plainI128_ok prof f2, Outcome.bind_ok]
+      rw [i128DivModFloor_pos prof (-a) (-b) f1 (by omega) (by unfold I128_MIN I128_MAX at *; omega)]
+      simp only [Outcome.bind_ok]
+      have hsp : Spec.specRoundQ tm a (b * (10 : Int) ^ (p - (n + q))) =
+          Spec.specRound tm (-a) (-b * (10 : Int) ^ (p - (n + q))) := by
+        have : b * (10 : Int) ^ (p - (n + q)) < 0 := Int.mul_neg_of_neg_of_pos hneg hts
+        rw [specRoundQ_neg tm a _ this, Int.neg_mul]
+      rw [hsp]
+      exact gt_tail prof tm (-a) (-b) n (p - (n + q)) (by unfold I128_MIN I128_MAX at *; omega)
+        (by unfold I128_MIN I128_MAX at *; omega) hs
+    · have f1 : fitsI128 a = true := by rw [fitsI128_iff]; omega
+      simp only [hneg, if_false]
+      rw [i128DivModFloor_pos prof a b f1 (by omega) hb.2]
+      simp only [Outcome.bind_ok]
+      have hsp : Spec.specRoundQ tm a (b * (10 : Int) ^ (p - (n + q))) =
+          Spec.specRound tm a (b * (10 : Int) ^ (p - (n + q))) := by
+        have : 0 < b * (10 : Int) ^ (p - (n + q)) := Int.mul_pos (by omega) hts
+        exact specRoundQ_pos tm a _ this
+      rw [hsp]
+      exact gt_tail prof tm a b n (p - (n + q)) ha ⟨by omega, hb.2⟩ hs
 
 end Fpdec.Props.C04
